@@ -791,51 +791,64 @@ func c31Layers(kinds []c31Kind, thorough bool) []c31Layer {
 	var layers []c31Layer
 
 	// L1 records: 1 topic x 1 partition x 1 batch; every record sequence over the full alphabet.
+	// gzip and zstd are enumerated one record shorter: the proxy builds a fresh encoder
+	// (megabytes of state) for every batch it recompresses, which dominates the run time.
+	l1 := func(name string, maxLen int, codecs []string) {
+		nseq := c31SeqCount(len(names), maxLen)
+		ncv := int64(len(codecs) * 2)
+		layers = append(layers, c31Layer{
+			Name: name, N: nseq * ncv,
+			Desc: fmt.Sprintf("1 topic x 1 partition x 1 batch; all record sequences of length 1..%d over %d record kinds x codec framings %v x 2 batch-header variants", maxLen, len(names), codecs),
+			Gen: func(i int64) c31Case {
+				seq := c31SeqAt(i/ncv, len(names), maxLen)
+				cv := int(i % ncv)
+				return c31Case{Layer: name, Topics: []c31TopicSpec{{Topic: "ta", Partitions: []c31PartSpec{{Partition: 0,
+					Batches: []c31BatchSpec{{Codec: codecs[cv/2], Variant: cv % 2, Records: pick(seq, names)}}}}}}}
+			}})
+	}
 	l1Len := 3
 	if thorough {
 		l1Len = 4
 	}
-	nseq := c31SeqCount(len(names), l1Len)
-	ncv := int64(len(c31Codecs) * 2)
-	layers = append(layers, c31Layer{
-		Name: "L1-records", N: nseq * ncv,
-		Desc: fmt.Sprintf("1 topic x 1 partition x 1 batch; all record sequences of length 1..%d over %d record kinds x %d codec framings x 2 batch-header variants", l1Len, len(names), len(c31Codecs)),
-		Gen: func(i int64) c31Case {
-			seq := c31SeqAt(i/ncv, len(names), l1Len)
-			cv := int(i % ncv)
-			return c31Case{Layer: "L1-records", Topics: []c31TopicSpec{{Topic: "ta", Partitions: []c31PartSpec{{Partition: 0,
-				Batches: []c31BatchSpec{{Codec: c31Codecs[cv/2], Variant: cv % 2, Records: pick(seq, names)}}}}}}}
-		}})
+	l1("L1-records-light", l1Len, []string{"none", "snappy", "lz4", "snappy-xerial"})
+	l1("L1-records-heavy", l1Len-1, []string{"gzip", "zstd"})
 
-	// L2 batches: 1 topic x 1 partition x 1..2 batches; batch = records 1..2 (thorough 3) over a reduced alphabet x all codecs.
+	// L2 batches: 1 topic x 1 partition x 1..2 batches.
+	l2 := func(name string, contents [][]string, codecs []string) {
+		var ba []c31BatchSpec
+		for _, ct := range contents {
+			for _, cd := range codecs {
+				ba = append(ba, c31BatchSpec{Codec: cd, Records: ct})
+			}
+		}
+		nba := int64(len(ba))
+		layers = append(layers, c31Layer{
+			Name: name, N: nba + nba*nba,
+			Desc: fmt.Sprintf("1 topic x 1 partition x 1..2 batches; each batch any of %d = (%d record sequences) x %v; second batch uses header variant 1", nba, len(contents), codecs),
+			Gen: func(i int64) c31Case {
+				var bs []c31BatchSpec
+				if i < nba {
+					bs = []c31BatchSpec{ba[i]}
+				} else {
+					i -= nba
+					b0, b1 := ba[i/nba], ba[i%nba]
+					b1.Variant = 1
+					bs = []c31BatchSpec{b0, b1}
+				}
+				return c31Case{Layer: name, Topics: []c31TopicSpec{{Topic: "ta", Partitions: []c31PartSpec{{Partition: 0, Batches: bs}}}}}
+			}})
+	}
 	l2Names := []string{"u-plain", "u-null", "f-plain", "f-sha-mid"}
 	l2Len := 2
 	if thorough {
 		l2Len = 3
 	}
-	l2Codecs := c31Codecs[:5]
-	var ba []c31BatchSpec
+	var l2Contents [][]string
 	for si := int64(0); si < c31SeqCount(len(l2Names), l2Len); si++ {
-		for _, cd := range l2Codecs {
-			ba = append(ba, c31BatchSpec{Codec: cd, Records: pick(c31SeqAt(si, len(l2Names), l2Len), l2Names)})
-		}
+		l2Contents = append(l2Contents, pick(c31SeqAt(si, len(l2Names), l2Len), l2Names))
 	}
-	nba := int64(len(ba))
-	layers = append(layers, c31Layer{
-		Name: "L2-batches", N: nba + nba*nba,
-		Desc: fmt.Sprintf("1 topic x 1 partition x 1..2 batches; each batch any of %d = (record sequences of length 1..%d over %v) x %v; second batch uses header variant 1", nba, l2Len, l2Names, l2Codecs),
-		Gen: func(i int64) c31Case {
-			var bs []c31BatchSpec
-			if i < nba {
-				bs = []c31BatchSpec{ba[i]}
-			} else {
-				i -= nba
-				b0, b1 := ba[i/nba], ba[i%nba]
-				b1.Variant = 1
-				bs = []c31BatchSpec{b0, b1}
-			}
-			return c31Case{Layer: "L2-batches", Topics: []c31TopicSpec{{Topic: "ta", Partitions: []c31PartSpec{{Partition: 0, Batches: bs}}}}}
-		}})
+	l2("L2-batches-light", l2Contents, []string{"none", "snappy", "lz4"})
+	l2("L2-batches-all-codecs", [][]string{{"u-plain"}, {"f-plain"}, {"u-null", "f-sha-mid"}}, []string{"none", "snappy", "gzip", "lz4", "zstd"})
 
 	// L3 topology: 1..2 topics x 1..2 partitions x (empty | 1..2 batches) over a small batch alphabet.
 	l3Contents := [][]string{{"u-plain"}, {"f-plain"}}
